@@ -330,6 +330,8 @@ def run(res, tier, seed):
             ss = xslgen.imports_stylesheet(rng)       # the imports family (import tree, apply-imports, named template overriding)
         elif k % 10 == 5:
             ss = xslgen.attrsets_stylesheet(rng)      # the attribute-set family (merging by import precedence, sets using sets, copy of non-elements)
+        elif k % 10 == 8:
+            ss = xslgen.stripcopy_stylesheet(rng)     # the strip / copy family (strip-space with copy-of, the identity rule, string values)
         elif k % 10 == 1:
             ss = xslgen.multidoc_stylesheet(rng)      # the multi-document family (document(), keys / id / numbering / sorting in loaded documents)
         else:
@@ -416,7 +418,7 @@ def run(res, tier, seed):
                        "from the XPath corpus; every 5th stylesheet from the scoping family (call-template / apply-templates with and without with-param under if/choose/for-each/"
                        "literal elements, same-named caller variables), every 10th from the sorting family (1-3 tie-prone sort keys, mixed order and data-type, position()/last() printed), every 10th from the imports family "
                        "(import tree of four modules, rules with overlapping patterns/modes/priorities, xsl:apply-imports, a named template defined in several modules, xsl:include'd runs), every 10th from the attribute-set family (sets merged by import precedence, sets using sets, use-attribute-sets on literal elements / xsl:element / "
-                       "xsl:copy incl. copies of the root, text and attribute nodes), every 10th from the multi-document family (document(): identity of loaded "
+                       "xsl:copy incl. copies of the root, text and attribute nodes), every 10th from the strip / copy family (strip-space and preserve-space declarations with xsl:copy-of of the root / elements / node lists, the identity rule, string values and text counts), every 10th from the multi-document family (document(): identity of loaded "
                        "documents, keys / id() / xsl:number / sorting / template application inside them, strip-space applied to them); non-trivial = at least 5 different instruction kinds in the stylesheet and a non-trivial result tree; distinct by (stylesheet, document). "
                        "Besides: the AVT family, the format-number family and the namespace-node family (see notes). Cases whose definition value involves a number outside the model or a dynamic error are not judged (counted in dropped_unjudged)")
     for ev in events[:2]:
